@@ -53,9 +53,20 @@ class C27(Prop):
         import logging
         import types
 
-        from cachebox import TTLCache
-        from streamflow.core.deployment import Connector, ExecutionLocation
-        from streamflow.deployment.connector import queue_manager as qm
+        import os
+
+        # importing queue_manager imports asyncssh, whose ctypes.util.find_library spawns helper processes that
+        # inherit stdin (= the worker's case stream): keep them away from it
+        saved, devnull = os.dup(0), os.open(os.devnull, os.O_RDONLY)
+        os.dup2(devnull, 0)
+        try:
+            from cachebox import TTLCache
+            from streamflow.core.deployment import Connector, ExecutionLocation
+            from streamflow.deployment.connector import queue_manager as qm
+        finally:
+            os.dup2(saved, 0)
+            os.close(saved)
+            os.close(devnull)
         from streamflow.log_handler import logger
 
         from harness.props.lts_loop import PickLoop, make_picker
@@ -78,13 +89,16 @@ class C27(Prop):
             async def run(self, location, command, environment=None, workdir=None, stdin=None, stdout=None,
                           stderr=None, capture_output=False, timeout=None, job_name=None):
                 w = prop.world
-                await real_sleep(0)
                 cmd = list(command)
+                if cmd[0] == "squeue":      # the command line is built (from _scheduled_jobs) before it runs
+                    arg0 = cmd[cmd.index("-j") + 1]
+                    w["log"].append(["lstart", [int(x) for x in arg0.split(",") if x]])
+                await real_sleep(0)
                 if "sbatch" in cmd:
                     j = w["next"]
                     w["next"] += 1
                     w["queue"].add(j)
-                    w["log"].append(["submit", j])
+                    w["log"].append(["submit", j, w["cur"]()])
                     w["subm"].append(j)
                     return str(j), 0
                 if cmd[0] == "squeue":
@@ -123,7 +137,7 @@ class C27(Prop):
 
         class LogDict(dict):
             def __setitem__(self, k, v):
-                prop.world["log"].append(["record", int(k)])
+                prop.world["log"].append(["record", int(k), prop.world["cur"]()])
                 super().__setitem__(k, v)
 
             def pop(self, k, *a):
@@ -265,7 +279,6 @@ class C27(Prop):
                     if not undeploying:
                         return ("run-fails", f"run() of job {i} raised {r} although nothing was undeployed")
                     continue
-                ids = [j for j in jobix if out == f"output-of-{j}"]
                 mine = obs_job_id(obs["log"], i)
                 if mine is None:
                     return ("own-result", f"job {i} finished without a submission")
@@ -326,29 +339,11 @@ class C27(Prop):
 
 
 def obs_job_id(log, i):
-    """queue id submitted by the i-th run() task: the clear events carry the task's job index right after its
-    record event; simpler and robust: the record events are logged in the task that submitted, so the n-th
-    'record' belongs to ... -- we use the done/clear bookkeeping below."""
-    # every job task logs: submit j (inside inner.run, same task) ... ; we tag by order of 'submit' per task via
-    # the 'clear' event (task index) that follows the 'record' of the same id.
-    last_record = None
-    owner = {}
-    pending = []
+    """queue id submitted by the i-th run() task (submit events carry the index of the submitting task)"""
     for e in log:
-        if e[0] == "record":
-            pending.append(e[1])
-        elif e[0] == "clear" and e[1] >= 0:
-            # the job task clears the cache after recording its own id; its id is the oldest unowned record
-            # made by it: records and clears of one task alternate, and a task records exactly once
-            if e[1] not in owner:
-                # the id recorded by this task is the one in `pending` not yet owned whose record is the latest
-                # one preceding this clear made by the same task; tasks record exactly one id, so match by order
-                # of records not yet claimed
-                pass
-        elif e[0] == "own":
-            owner[e[1]] = e[2]
-    # fall back to explicit 'own' events (logged by the harness right after run() recorded)
-    return owner.get(i)
+        if e[0] == "submit" and e[2] == i:
+            return e[1]
+    return None
 
 
 PROP = C27()
